@@ -146,3 +146,122 @@ theorem slowLoop_spec (d : Nat) (hd : 0 < d) (hd64 : d < 2 ^ 64) : ∀ (k q r c 
       ring
 
 end LexVerif.Model.WriteInt
+
+namespace LexVerif.Model.WriteInt
+open LexVerif.Spec
+
+theorem log2_bounds (x : Nat) (hx : x ≠ 0) : 2 ^ Nat.log2 x ≤ x ∧ x < 2 ^ (Nat.log2 x + 1) :=
+  ⟨Nat.log2_self_le hx, Nat.lt_log2_self⟩
+
+/-- `slow_u128_divrem(n, d, d.leading_zeros())` for a 64-bit divisor of at least 32 bits -/
+theorem slow_spec (n d c : Nat) (hn : n < 2 ^ 128) (hd32 : 2 ^ 32 ≤ d) (hd64 : d < 2 ^ 64) (hc : c = clz 64 d) :
+    slowU128Divrem n d c = .ok (n / d, n % d) := by
+  have hd : 0 < d := by omega
+  unfold slowU128Divrem
+  have hhigh : n / 2 ^ 64 % 2 ^ 64 = n / 2 ^ 64 := by omega
+  simp only [hhigh]
+  by_cases h0 : n / 2 ^ 64 = 0
+  · rw [if_pos h0]
+    have : n % 2 ^ 64 = n := by omega
+    simp only [this]
+    rw [if_neg (by omega)]
+  · rw [if_neg h0]
+    obtain ⟨high, hh⟩ : ∃ h, h = n / 2 ^ 64 := ⟨_, rfl⟩
+    rw [← hh] at h0 ⊢
+    obtain ⟨hbh1, hbh2⟩ := log2_bounds high h0
+    obtain ⟨hbd1, hbd2⟩ := log2_bounds d (by omega)
+    obtain ⟨bh, hbh⟩ : ∃ b, b = Nat.log2 high := ⟨_, rfl⟩
+    obtain ⟨bd, hbd⟩ : ∃ b, b = Nat.log2 d := ⟨_, rfl⟩
+    rw [← hbh] at hbh1 hbh2
+    rw [← hbd] at hbd1 hbd2
+    have hbh64 : bh < 64 := by
+      rcases Nat.lt_or_ge bh 64 with h | h
+      · exact h
+      · have : (2:Nat) ^ 64 ≤ 2 ^ bh := Nat.pow_le_pow_right (by omega) h
+        omega
+    have hbd64 : bd < 64 := by
+      rcases Nat.lt_or_ge bd 64 with h | h
+      · exact h
+      · have : (2:Nat) ^ 64 ≤ 2 ^ bd := Nat.pow_le_pow_right (by omega) h
+        omega
+    have hbd32 : 31 ≤ bd := by
+      rcases Nat.lt_or_ge bd 31 with h | h
+      · have : (2:Nat) ^ (bd + 1) ≤ 2 ^ 31 := Nat.pow_le_pow_right (by omega) (by omega)
+        omega
+      · exact h
+    have hclzh : clz 64 high = 63 - bh := by unfold clz; rw [if_neg h0, ← hbh]; omega
+    have hclzd : c = 63 - bd := by rw [hc]; unfold clz; rw [if_neg (by omega), ← hbd]; omega
+    have hsr : (65 + c + (2 ^ 32 - clz 64 high)) % 2 ^ 32 = 65 + bh - bd := by rw [hclzh, hclzd]; omega
+    simp only [hsr]
+    obtain ⟨sr, hsr'⟩ : ∃ s, s = 65 + bh - bd := ⟨_, rfl⟩
+    rw [← hsr']
+    have hsr1 : 2 ≤ sr := by omega
+    have hsr2 : sr ≤ 97 := by omega
+    rw [if_neg (by omega), if_neg (by omega)]
+    -- the initial state
+    have hpow : 2 ^ 128 = 2 ^ sr * 2 ^ (128 - sr) := by rw [← Nat.pow_add]; congr 1; omega
+    have hq0 : w128 (n * 2 ^ (128 - sr)) = n % 2 ^ sr * 2 ^ (128 - sr) + 0 := by
+      unfold w128; rw [hpow, Nat.mul_mod_mul_right]; simp
+    have hnlt : n < 2 ^ (65 + bh) := by
+      have h1 : n < (high + 1) * 2 ^ 64 := by rw [hh]; have := Nat.div_add_mod n (2 ^ 64); omega
+      have h2 : (high + 1) * 2 ^ 64 ≤ 2 ^ (bh + 1) * 2 ^ 64 := Nat.mul_le_mul_right _ (by omega)
+      have h3 : 2 ^ (bh + 1) * 2 ^ 64 = 2 ^ (65 + bh) := by rw [← Nat.pow_add]; congr 1; omega
+      omega
+    have hr0 : n / 2 ^ sr < d := by
+      have h1 : 2 ^ (65 + bh) = 2 ^ sr * 2 ^ bd := by rw [← Nat.pow_add]; congr 1; omega
+      have : n / 2 ^ sr < 2 ^ bd := Nat.div_lt_of_lt_mul (by rw [← h1]; exact hnlt)
+      omega
+    have hinv : (2 * 0 + 0 + 1) * 2 ^ sr ≤ 2 ^ 127 := by
+      have : (2:Nat) ^ sr ≤ 2 ^ 127 := Nat.pow_le_pow_right (by omega) (by omega)
+      omega
+    obtain ⟨i1, i2, i3, i4⟩ := slowLoop_spec d hd hd64 sr _ (n / 2 ^ sr) 0 (n % 2 ^ sr) 0 hq0
+      (Nat.mod_lt _ (Nat.pow_pos (by omega))) hr0 (by omega) (by omega) hinv
+    have hn' : n / 2 ^ sr * 2 ^ sr + n % 2 ^ sr = n := by rw [Nat.mul_comm]; exact Nat.div_add_mod n (2 ^ sr)
+    rw [hn'] at i1 i2
+    simp only [Nat.mul_zero, Nat.add_zero, Nat.zero_mul, Nat.zero_add] at i2
+    generalize slowLoop d sr (w128 (n * 2 ^ (128 - sr))) (n / 2 ^ sr) 0 = res at *
+    obtain ⟨q', r', c'⟩ := res
+    simp only at i1 i2 i3 i4 ⊢
+    have e1 : w128 (q' * 2) = 2 * q' := by unfold w128; omega
+    have hrd : n % d < d := Nat.mod_lt n hd
+    rw [e1, lor_even q' c' i3, i2, i1, Nat.mod_eq_of_lt (by omega)]
+
+/-- the per-radix constants of `u128_divrem_<r>` are fit for purpose (cf. `Props.TablesWrite.div128_all`, which states
+the same about the regenerated constants; `Props.C03Tie.divremKind_table` equates the two) -/
+def DivOK (r : Nat) : Prop :=
+  match divremKind r with
+  | some (.pow2 mask shr) => shr ≤ 64 ∧ mask = 2 ^ shr - 1 ∧ 2 ^ shr = r ^ u64StepTable r
+  | some (.slow d c) => d = r ^ u64StepTable r ∧ 2 ^ 32 ≤ d ∧ d < 2 ^ 64 ∧ c = clz 64 d
+  | some (.moderate d f s) => d = r ^ u64StepTable r ∧ d < 2 ^ 64 ∧ s < 128 ∧ MulHiPre128 d f s
+  | some (.fast d fa fs f s) => d = r ^ u64StepTable r ∧ d < 2 ^ 64 ∧ s < 128 ∧ fs < 128 ∧ fa = 2 ^ (64 + fs) ∧
+      d % 2 ^ fs = 0 ∧ 0 < d / 2 ^ fs ∧ MulHiPre128 d f s
+  | none => False
+
+instance (r : Nat) : Decidable (DivOK r) := by
+  unfold DivOK
+  split <;> infer_instance
+
+theorem divOK_all : ∀ r, 2 ≤ r → r ≤ 36 → DivOK r := by decide +kernel
+
+/-- `u128_divrem_<r>(n) = (n / r^u64_step(r), n % r^u64_step(r))` for every radix -/
+theorem runDivRem_spec (n r : Nat) (hn : n < 2 ^ 128) (hr : 2 ≤ r) (hr36 : r ≤ 36) :
+    ∃ k, divremKind r = some k ∧
+      runDivRem n k = .ok (n / r ^ u64StepTable r, n % r ^ u64StepTable r) := by
+  have h := divOK_all r hr hr36
+  unfold DivOK at h
+  split at h
+  · rename_i mask shr heq
+    obtain ⟨h1, h2, h3⟩ := h
+    exact ⟨_, heq, by rw [← h3]; exact pow2_spec n mask shr hn h1 h2⟩
+  · rename_i d c heq
+    obtain ⟨h1, h2, h3, h4⟩ := h
+    exact ⟨_, heq, by rw [← h1]; exact slow_spec n d c hn h2 h3 h4⟩
+  · rename_i d f s heq
+    obtain ⟨h1, h2, h3, h4⟩ := h
+    exact ⟨_, heq, by rw [← h1]; exact moderate_spec n d f s hn h2 h3 h4⟩
+  · rename_i d fa fs f s heq
+    obtain ⟨h1, h2, h3, h4, h5, h6, h7, h8⟩ := h
+    exact ⟨_, heq, by rw [← h1]; exact fast_spec n d fa fs f s hn h2 h3 h4 h5 h6 h7 h8⟩
+  · exact absurd h (by simp)
+
+end LexVerif.Model.WriteInt
